@@ -69,8 +69,50 @@ class patched:
 
 # ------------------------------------------------------------------------------- native replay
 def native_outcome(h, inputs):
-    with patched(h):
-        return _native_outcome(h, inputs)
+    """the harness run natively on concrete inputs, in a forked child: every replay starts from the state the modules
+    had after import (a replay cannot leave anything behind for the next one or for the symbolic paths), and a replay
+    that hangs is cut off"""
+    if os.environ.get("PYSYM_NATIVE_INPROC") or not hasattr(os, "fork"):
+        with patched(h):
+            return _native_outcome(h, inputs)
+    import signal
+    r, w = os.pipe()
+    sys.stdout.flush()
+    sys.stderr.flush()
+    pid = os.fork()
+    if pid == 0:
+        code = 0
+        try:
+            os.close(r)
+            signal.signal(signal.SIGALRM, signal.SIG_DFL)
+            signal.alarm(NATIVE_TIMEOUT_S)
+            with patched(h):
+                out = _native_outcome(h, inputs)
+            os.write(w, json.dumps(list(out)).encode())
+        except BaseException as e:  # noqa: BLE001
+            try:
+                os.write(w, json.dumps(["internal", type(e).__name__]).encode())
+            except BaseException:  # noqa: BLE001
+                code = 3
+        finally:
+            os._exit(code)
+    os.close(w)
+    chunks = []
+    while True:
+        b = os.read(r, 65536)
+        if not b:
+            break
+        chunks.append(b)
+    os.close(r)
+    os.waitpid(pid, 0)
+    data = b"".join(chunks)
+    if not data:
+        return ("timeout", None)
+    out = json.loads(data)
+    return (out[0], out[1])
+
+
+NATIVE_TIMEOUT_S = 120
 
 
 def _native_outcome(h, inputs):
